@@ -2,5 +2,5 @@ package agent
 
 // bounds (kept in one place; the registered values are the ones that ran clean)
 const verifDispatchMaxL = 8
-const verifDispatchDeepL = 32
+const verifDispatchDeepL = 64
 const verifHistorySteps = 4
